@@ -46,23 +46,31 @@ def activate():
 _orch_counter = [0]
 
 
+_orch_code = []
+
+
 def load_orchestrator():
-    """Load nextflow/scripts/batchie.py by path as a fresh module object."""
+    """Execute nextflow/scripts/batchie.py (compiled once per process, no bytecode written) into a fresh module object."""
+    import logging
+    import types
+
     if not os.path.exists(ORCH):
         raise HarnessError("orchestration script missing: %s" % ORCH)
-    _orch_counter[0] += 1
-    name = "_batchie_orchestrator_%d" % _orch_counter[0]
-    spec = importlib.util.spec_from_file_location(name, ORCH)
-    mod = importlib.util.module_from_spec(spec)
     try:
-        spec.loader.exec_module(mod)
+        if not _orch_code:
+            with open(ORCH, "rb") as f:
+                _orch_code.append(compile(f.read(), ORCH, "exec"))
+        _orch_counter[0] += 1
+        mod = types.ModuleType("_batchie_orchestrator_")
+        mod.__file__ = ORCH
+        exec(_orch_code[0], mod.__dict__)
     except Exception as e:
         raise HarnessError("cannot load orchestration script: %r" % (e,))
-    import logging
-
-    mod.logger.handlers[:] = []
-    mod.logger.addHandler(logging.NullHandler())
-    mod.logger.propagate = False
+    lg = getattr(mod, "logger", None)
+    if isinstance(lg, logging.Logger):
+        lg.handlers[:] = []
+        lg.addHandler(logging.NullHandler())
+        lg.propagate = False
     return mod
 
 
